@@ -41,7 +41,7 @@ Slot(p) == Prot_Bstr(p).x.b
 Rep(n, x) == SeqOf(n, x)
 AllLens == Lens \cup BigLens
 
-SigRoutes == {"free-sign1", "free-sign", "free-counter", "free-counter-nosign", "sign1-lit", "sign1-lit-detached", "sign-lit", "sign-lit-detached",
+SigRoutes == {"free-sign1", "free-sign", "free-counter", "free-counter-nosign", "free-sign1-withsign", "free-sign-nosign", "sign1-lit", "sign1-lit-detached", "sign-lit", "sign-lit-detached",
               "sign1-builder", "sign1-builder-detached", "sign1-builder-try", "sign-builder", "sign-builder-detached", "sign-builder-try"}
 MacRoutes == {"free-mac", "free-mac0", "mac-lit", "mac0-lit", "mac-builder", "mac0-builder", "mac-builder-try", "mac0-builder-try"}
 EncRoutes == {"free-encrypt", "free-encrypt0", "free-enc-rec", "free-mac-rec", "free-rec-rec", "encrypt-lit", "encrypt0-lit",
@@ -88,6 +88,8 @@ SetPl == [ev |-> "call", m |-> "payload", bytes |-> Pl]
 Steps ==
   CASE st.r = "free-sign1" -> <<[ev |-> "struct", fn |-> "sig", ctx |-> "CoseSign1", body |-> Body, signp |-> <<>>, aad |-> Aad, pl |-> Pl]>>
     [] st.r = "free-sign" -> <<[ev |-> "struct", fn |-> "sig", ctx |-> "CoseSignature", body |-> Body, signp |-> <<Sgn>>, aad |-> Aad, pl |-> Pl]>>
+    [] st.r = "free-sign1-withsign" -> <<[ev |-> "struct", fn |-> "sig", ctx |-> "CoseSign1", body |-> Body, signp |-> <<Sgn>>, aad |-> Aad, pl |-> Pl]>>
+    [] st.r = "free-sign-nosign" -> <<[ev |-> "struct", fn |-> "sig", ctx |-> "CoseSignature", body |-> Body, signp |-> <<>>, aad |-> Aad, pl |-> Pl]>>
     [] st.r = "free-counter" -> <<[ev |-> "struct", fn |-> "sig", ctx |-> "CounterSignature", body |-> Body, signp |-> <<Sgn>>, aad |-> Aad, pl |-> Pl]>>
     [] st.r = "free-counter-nosign" -> <<[ev |-> "struct", fn |-> "sig", ctx |-> "CounterSignature", body |-> Body, signp |-> <<>>, aad |-> Aad, pl |-> Pl]>>
     [] st.r = "sign1-lit" -> <<Lit("CoseSign1", Sign1Val), [ev |-> "tbs", m |-> "tbs_data", aad |-> Aad],
@@ -148,8 +150,8 @@ Applicable == IF st.r \in {"sign1-builder", "sign1-builder-detached", "sign1-bui
 Observed == RunObs(InitState, Steps, <<>>)
 
 (* ---- Prop: the RFC structure for this tuple, computed independently of the wrappers ---- *)
-CtxText == CASE st.r \in {"free-sign1", "sign1-lit", "sign1-lit-detached", "sign1-builder", "sign1-builder-detached", "sign1-builder-try"} -> "Signature1"
-             [] st.r \in {"free-sign", "sign-lit", "sign-lit-detached", "sign-builder", "sign-builder-detached", "sign-builder-try"} -> "Signature"
+CtxText == CASE st.r \in {"free-sign1", "free-sign1-withsign", "sign1-lit", "sign1-lit-detached", "sign1-builder", "sign1-builder-detached", "sign1-builder-try"} -> "Signature1"
+             [] st.r \in {"free-sign", "free-sign-nosign", "sign-lit", "sign-lit-detached", "sign-builder", "sign-builder-detached", "sign-builder-try"} -> "Signature"
              [] st.r \in {"free-counter", "free-counter-nosign"} -> "CounterSignature"
              [] st.r \in {"free-mac", "mac-lit", "mac-builder", "mac-builder-try"} -> "MAC"
              [] st.r \in {"free-mac0", "mac0-lit", "mac0-builder", "mac0-builder-try"} -> "MAC0"
@@ -159,7 +161,7 @@ CtxText == CASE st.r \in {"free-sign1", "sign1-lit", "sign1-lit-detached", "sign
              [] st.r \in {"free-mac-rec", "recipient-lit-mac", "recipient-builder-try"} -> "Mac_Recipient"
              [] st.r \in {"free-rec-rec", "recipient-lit-rec"} -> "Rec_Recipient"
              [] OTHER -> "none"
-HasSignSlot == st.r \in {"free-sign", "free-counter", "sign-lit", "sign-lit-detached", "sign-builder", "sign-builder-detached", "sign-builder-try"}
+HasSignSlot == st.r \in {"free-sign", "free-sign1-withsign", "free-counter", "sign-lit", "sign-lit-detached", "sign-builder", "sign-builder-detached", "sign-builder-try"}
 RfcBytes ==
   CASE Fam = "sig" -> RfcSig(Ascii[CtxText], Slot(Body), IF HasSignSlot THEN <<Slot(Sgn)>> ELSE <<>>, Aad, Pl)
     [] Fam = "mac" -> RfcMac(Ascii[CtxText], Slot(Body), Aad, Pl)
